@@ -10,7 +10,7 @@ import time
 ROOT = os.path.dirname(os.path.dirname(os.path.abspath(__file__)))
 sys.path.insert(0, os.path.join(ROOT, "kani"))
 REPO = os.environ.get("VERIF_REPO", "/repo")
-CACHE = os.path.join(ROOT, ".cache", "kani")
+CACHE = os.path.join(os.environ.get("VERIF_WORK", ROOT), ".cache", "kani")
 JOBS = os.environ.get("VERIF_JOBS", "16")
 MAX_REPLAYS = int(os.environ.get("VERIF_MAX_REPLAYS", "5"))
 
